@@ -86,7 +86,7 @@ let run_small () =
           | [m; n; f] -> { c_mem = zi (int_of_string m); c_nodes = zi (int_of_string n); c_free = if f = "-" then [] else List.map (fun x -> zi (int_of_string x)) (String.split_on_char ',' f) }
           | _ -> { c_mem = zi 0; c_nodes = zi 0; c_free = [] }) (String.split_on_char ';' s) in
   (* the whole list (chunk order, free chains, both cursors) carried by SmallList in lock-step *)
-  let sm = ref None and smops = ref 0 in
+  let sm = ref None and smops = ref 0 and base = ref (-1000000) and searches = ref 0 in
   let pos_of_addr cs a = if a = -999999 then 0 else (let rec go i = function [] -> -1 | c :: tl -> if iz c.c_mem - 32 = a then i + 1 else go (i + 1) tl in go 0 cs) in
   let resync caps =
     let k = kvs caps in
@@ -114,6 +114,7 @@ let run_small () =
          let k = kvs mid in
          ns := int_of_string (List.assoc "ns" k); dbl := (List.assoc "dbl" k = "1"); ptr := (List.assoc "ptr" k = "1");
          sm := Some (sm_empty (zi !ns)); compare_sm caps line;
+         base := (try int_of_string (List.assoc "base" k) with Not_found -> -1000000);
          prev_chunks := (try List.assoc "chunks" (kvs caps) with Not_found -> "-");
          prev_dc := (try int_of_string (List.assoc "dc" (kvs caps)) with Not_found -> -999999)
        | [head; caps] ->
@@ -147,11 +148,20 @@ let run_small () =
                 | Some (x, l') -> if iz x <> int_of_string p then diverge (Printf.sprintf "SmallList: model allocates the node at %d" (iz x)) line; sm := Some l'; compare_sm caps line
                 | None -> diverge "SmallList: the model finds no chunk with a free node" line; resync caps)
              | Some l, "d" :: _, "released" :: p :: _ ->
-               incr smops;
-               (match sm_dealloc l (zi (int_of_string p)) with
-                | Some l' -> sm := Some l'; compare_sm caps line
-                | None -> diverge "SmallList: the released node is in no chunk of the model" line; resync caps)
-             | Some _, "bad" :: _, c :: _ -> if c = "accepted" then resync caps else compare_sm caps line
+               incr smops; incr searches;
+               (* deallocate as the code runs it (chunk search from the cursors, then the checks) and its specification agree *)
+               (match sm_deallocate (zi !base) !ptr !dbl l (zi (int_of_string p)), sm_dealloc l (zi (int_of_string p)) with
+                | MOk l1, Some l' ->
+                  if (List.map (fun c -> (iz c.c_mem, List.map iz c.c_free)) l1.sm_chunks, int_of_nat l1.sm_dc) <> (List.map (fun c -> (iz c.c_mem, List.map iz c.c_free)) l'.sm_chunks, int_of_nat l'.sm_dc)
+                  then diverge "SmallList: the chunk search of deallocate ends at a different chunk than the one holding the node" line;
+                  sm := Some l'; compare_sm caps line
+                | _, Some l' -> diverge "SmallList: the model's deallocate refuses a valid release" line; sm := Some l'; compare_sm caps line
+                | _, None -> diverge "SmallList: the released node is in no chunk of the model" line; resync caps)
+             | Some l, "bad" :: _, c :: _ :: p :: _ ->
+               incr searches;
+               let m = (match sm_deallocate (zi !base) !ptr !dbl l (zi (int_of_string p)) with MOk _ -> "accepted" | MReported -> "reported" | MAbort -> "abort" | MCrash -> "crash" | MHang -> "hang") in
+               if m <> c then diverge ("SmallList: deallocate as the code runs it ends as " ^ m) line;
+               if c = "accepted" then resync caps else compare_sm caps line
              | _ -> ());
             prev_chunks := chunks_now;
             prev_dc := (try int_of_string (List.assoc "dc" k) with Not_found -> -999999)
@@ -159,7 +169,7 @@ let run_small () =
        | _ -> ()
      done
    with End_of_file -> ());
-  Printf.printf "SUMMARY ops=%d diverged=%d bad_calls=%d list_steps=%d\n" !ops !bad !bads !smops
+  Printf.printf "SUMMARY ops=%d diverged=%d bad_calls=%d list_steps=%d searches=%d\n" !ops !bad !bads !smops !searches
 
 (* the real free_memory_list in lock-step with UnorderedList: nodes in link order after every operation *)
 let run_unord () =
